@@ -151,6 +151,8 @@ def mutate_semantic(draw, body):
     if not cands:
         return mutate_body(draw, body)
     what, path = draw(st.sampled_from(cands))
+    if not path:
+        return unknown_but_valid(doc), 'body:unknown-identifier-value'
     if what == 'value':
         cur = doc
         for p in path[:-1]:
